@@ -409,7 +409,15 @@ func c07PairWant(cs c07Case, a, b []byte, w []float64, pi [4]float64) c07Want {
 			continue
 		}
 		if c07Amb(sa) || c07Amb(sb) {
-			return c07Want{class: c07Skipped, p: nan, note: "K2P/F84/TN93 on a pair with an ambiguity code at a comparable site: how it enters the transition/transversion counts is not documented"}
+			// documented: a difference is counted when the two codes are incompatible; compatible codes
+			// (R facing A or G, N facing anything) are a comparable site without difference.  An
+			// incompatible pair holding an ambiguity code is left open (how it is split between
+			// transitions and transversions is not documented).
+			if sa&sb != 0 {
+				T += w[k]
+				continue
+			}
+			return c07Want{class: c07Skipped, p: nan, note: "K2P/F84/TN93 on a pair with an ambiguity code facing an incompatible code: how it enters the transition/transversion counts is not documented"}
 		}
 		T += w[k]
 		if sa == sb {
